@@ -59,6 +59,9 @@ def get_ref(ctx, ids, subset):
         status, inj = F.run_main(F.argv_for(job, outs))
         ctx.check(status == "ok", "uninterrupted_run_fails", lambda: "%s; stdout=%s" % (status, inj.stdout[-600:]))
         ctx.check("ERROR" not in inj.stdout, "uninterrupted_run_reports_errors", lambda: inj.stdout[-800:])
+        # every requested output of every input page is there (the comparison with resumed runs would be vacuous otherwise)
+        missing = [(k, fn) for pid, files in expected_files(ids, subset).items() for k, fn in files if not os.path.exists(os.path.join(outs[k], fn))]
+        ctx.check(not missing, "requested_output_missing_after_uninterrupted_run", lambda: "%r for ids=%r outputs=%r" % (missing, ids, subset))
         _REFS[key] = (F.snapshot(outs), list(inj.writes), list(inj.processed))
     return _REFS[key]
 
